@@ -1,7 +1,7 @@
 //! `BootstrapCacheStore::load_cache_data` on arbitrary file contents, and
 //! `load(write(store))` = the store's addresses (minus what the documented clean-up removes).
 
-use crate::common::{guarded, raw_bytes, Raw};
+use crate::common::{re, guarded, raw_bytes, Raw};
 use crate::registry::peer_id;
 use ant_bootstrap::{BootstrapCacheConfig, BootstrapCacheStore};
 use libp2p::Multiaddr;
@@ -165,7 +165,7 @@ pub fn strategy() -> BoxedStrategy<CacheCase> {
     let synth = (
         proptest::collection::vec(synth_peer(), 0..4),
         secs(),
-        prop_oneof![Just(String::new()), Just("1_1.0".to_string()), "\\PC{0,6}".boxed()],
+        prop_oneof![Just(String::new()), Just("1_1.0".to_string()), re("\\PC{0,6}")],
         proptest::option::weighted(0.15, any::<u16>()),
         cfg(),
     )
